@@ -103,6 +103,8 @@ class Env:
         np = self.np
         k = o[0]
         if k == "var":
+            if len(o) > 2:
+                shape = tuple(o[2])
             return self.spox.argument(self.spox.Tensor(np.dtype(self.dtypes[o[1]]), shape))
         if k == "int":
             return o[1]
@@ -272,8 +274,15 @@ def grid(np, dtname, divisor=False, no_min=False):
     return np.array(sorted(set(vals)), dtype=dt)
 
 
-def agree(np, got, want):
-    """Elementwise agreement: exact for integers/bools, tight relative tolerance for floats."""
+EXACT_OPS = ("add", "sub", "mul", "truediv", "neg")
+
+
+def agree(np, got, want, exact=False):
+    """Elementwise agreement: exact for integers/bools. For floats: `exact` (the IEEE basic operations
+    + - * / and negation, on which numpy and a correct ONNX graph agree bit for bit, nan <-> nan) or a
+    tight relative tolerance (floor division, whose emitted algorithm legitimately differs from numpy's)."""
+    if want.dtype.kind == "f" and exact:
+        return (np.isnan(want) & np.isnan(got)) | ((got == want) & (np.signbit(got) == np.signbit(want)))
     if want.dtype.kind == "f":
         rtol = {2: 2e-3, 4: 2e-6, 8: 1e-12}[want.dtype.itemsize]
         with np.errstate(all="ignore"):
@@ -394,7 +403,7 @@ def value_case(env: Env, opname, oa, ob, settings=(True, True), const_path=False
         if got.shape != want.shape:
             out.append((f"{opname}:result-shape", f"{describe(env, opname, oa, ob)}: shape {got.shape} vs numpy {want.shape}", None))
             continue
-        ok = agree(np, got, want)
+        ok = agree(np, got, want, exact=opname in EXACT_OPS)
         if not ok.all():
             idx = tuple(np.argwhere(~ok)[0])
             x = np.broadcast_to(xa, got.shape)[idx]
@@ -681,7 +690,7 @@ def history_value_case(env: Env, hist):
         if got.dtype != want.dtype:
             out.append((f"history:{op}:result-dtype", f"step r{k} of {describe_history(env, hist)}: spox gives {got.dtype}, numpy {want.dtype}"))
             break  # later steps inherit the difference
-        ok = agree(np, got, np.broadcast_to(want, got.shape))
+        ok = agree(np, got, np.broadcast_to(want, got.shape), exact=op in EXACT_OPS)
         if not ok.all():
             i = int(np.argwhere(~ok)[0][0])
             a, b = nres(steps[k][1]["a"]), nres(steps[k][1]["b"])
@@ -921,6 +930,67 @@ def scoped_case(env: Env, prog):
     return probes, scoped_oracle(env, prog, probes)
 
 
+# --------------------------------------------------------------------------- operand shapes (ranks)
+SHAPE_PAIRS = [((), (3,)), ((3,), ()), ((), (2, 3)), ((2, 3), ()), ((1,), (3,)), ((3,), (2, 3)),
+               ((), ()), ((1,), ()), ((), (1,)), ((2, 1), (3,)), ((2, 3), (2, 3))]
+
+
+def shape_value_case(env: Env, opname, da, db, sa, sb):
+    """Var x Var with the given element types AND shapes (rank 0 against rank >= 1, broadcasting pairs):
+    dtype, shape and values of the built model vs numpy on the same arrays. -> [(key, what)]"""
+    np = env.np
+    dta, dtb = np.dtype(env.dtypes[da]), np.dtype(env.dtypes[db])
+    div = opname in ("truediv", "floordiv")
+
+    def fill(dt, shape, divisor, variant):
+        g = grid(np, dt.name, divisor=divisor)
+        g = g[np.isfinite(g.astype(np.float64))] if dt.kind == "f" else g
+        if divisor and dt.kind == "i":
+            g = g[g != -1]
+        n = int(np.prod(shape)) if shape else 1
+        # rank 0: one value per variant, among them the extremes (a scalar holding a large value must not wrap)
+        vals = np.resize(np.roll(g, -variant * 2 - (1 if shape == () else 0)), n) if shape else np.array([g[-1 - variant] if variant < 2 else g[variant]])
+        return vals.astype(dt).reshape(shape)
+
+    a = env.spox.argument(env.spox.Tensor(dta, sa))
+    b = env.spox.argument(env.spox.Tensor(dtb, sb))
+    try:
+        with warnings.catch_warnings():
+            warnings.simplefilter("ignore")
+            with env.fut.operator_overloading(env.op, type_promotion=True):
+                r = PYOP[opname](a, b)
+            model = env.spox.build({"a": a, "b": b}, {"r": r})
+    except Exception as e:  # noqa: BLE001
+        return [(f"{opname}:refused:{env.err_name(e)}", f"Var[{dta.name}{list(sa)}] {SYM[opname]} Var[{dtb.name}{list(sb)}] raises {env.err_name(e)}")]
+    sess = env.ort.InferenceSession(model.SerializeToString(), env.so, providers=["CPUExecutionProvider"])
+    out = []
+    for variant in range(3):
+        xa, xb = fill(dta, sa, False, variant), fill(dtb, sb, div, variant)
+        if opname == "floordiv" and dta.kind == "i":
+            xa = np.where(xa == np.iinfo(dta).min, np.iinfo(dta).min + 1, xa).astype(dta)
+        kind, want = numpy_expect(np, opname, xa, xb)
+        if kind != "ok":
+            continue
+        want = np.asarray(want)
+        got = np.asarray(sess.run(None, {"a": xa, "b": xb})[0])
+        what = f"Var[{dta.name}{list(sa)}] {SYM[opname]} Var[{dtb.name}{list(sb)}]"
+        if got.dtype != want.dtype:
+            out.append((f"{opname}:result-dtype", f"{what}: spox gives {got.dtype}, numpy {want.dtype}"))
+            break
+        if got.shape != want.shape:
+            out.append((f"{opname}:result-shape", f"{what}: shape {got.shape}, numpy {want.shape}"))
+            break
+        ok = agree(np, got, want, exact=opname in EXACT_OPS)
+        if not ok.all():
+            idx = tuple(np.argwhere(~ok)[0])
+            key = f"{opname}:{'float' if want.dtype.kind == 'f' else 'int'}:wrong-value"
+            if opname == "floordiv" and want.dtype.kind == "f":
+                continue  # the float // findings are classified on the full grids, not here
+            out.append((key, f"{what} at a={xa.tolist()}, b={xb.tolist()}: spox {got[idx]!r}, numpy {want[idx]!r} at {idx}"))
+            break
+    return out
+
+
 def describe(env, opname, oa, ob):
     def d(o):
         if o is None:
@@ -990,6 +1060,7 @@ CHECKS = {
     "outside": lambda env, c: outside_case(env, c["op"], c["a"], c.get("b")),
     "history": lambda env, c: history_value_case(env, c["hist"])[0],
     "scoped": lambda env, c: scoped_case(env, c["prog"])[1],
+    "shape": lambda env, c: shape_value_case(env, c["op"], c["da"], c["db"], tuple(c["sa"]), tuple(c["sb"])),
 }
 
 
@@ -1109,7 +1180,7 @@ def run(ck: core.Check):
             for b in NUM:
                 value_cases.append((opname, ["var", a], ["var", b]))
         for d in NUM:
-            for s in [["int", 2], ["int", -7], ["int", -1], ["float", 0.5], ["float", -2.5], ["bool", True],
+            for s in [["int", 2], ["int", -7], ["int", -1], ["int", 3], ["float", 10.0], ["float", 0.5], ["float", -2.5], ["bool", True],
                       ["int", 0], ["int", 1], ["float", 0.0], ["float", 1.0], ["float", -0.0], ["float", -1.0], ["bool", False]]:
                 value_cases.append((opname, ["var", d], s))
                 value_cases.append((opname, s, ["var", d]))
@@ -1208,6 +1279,50 @@ def run(ck: core.Check):
     ck.cov["eval_points_vs_onnxruntime"] = n_eval
     ck.cov["eval_mismatches"] = eval_mism
 
+
+
+    # ------------------------------------------------------------------ operand shapes: rank 0 against rank >= 1, broadcasting pairs
+    sh_cases = []
+    for opname in ("add", "mul", "truediv"):
+        for a in NUM:
+            for b in NUM:
+                for sa, sb in SHAPE_PAIRS:
+                    sh_cases.append((opname, a, b, sa, sb))
+    if not ck.thorough:
+        core_pairs = {((), (3,)), ((2, 3), ())}
+        sh_cases = [c for c in sh_cases if (c[0] == "add" and (c[3], c[4]) in core_pairs) or rng.random() < 0.06]
+    sh_mism = 0
+    try:
+        sh_reqs = [{"settings": [True, True], "op": o_, "a": ["var", a], "b": ["var", b]} for o_, a, b, _, _ in sh_cases]
+        sh_model = ck.driver().ask_many("C17", sh_reqs) if model is not None else None
+    except Exception as e:  # noqa: BLE001
+        ck.broken("correspondence", "C17 driver (shapes)", str(e))
+        sh_model = None
+    for k, (o_, a, b, sa, sb) in enumerate(sh_cases):
+        try:
+            res, _, _ = env.dispatch([True, True], o_, ["var", a, list(sa)], ["var", b, list(sb)])
+        except Exception as e:  # noqa: BLE001
+            res = {"unobservable": f"{type(e).__name__}: {e}"}
+        ck.count(("dispatch-shape", o_, a, b, sa, sb))
+        if sh_model is not None and "unobservable" not in res and sh_model[k] != res:
+            sh_mism += 1
+            if sh_mism <= 3:
+                ck.broken("correspondence", "C17 dispatcher model-vs-implementation (operand shapes)",
+                          f"Var[{env.dtypes[a]}{list(sa)}] {SYM[o_]} Var[{env.dtypes[b]}{list(sb)}]: model (shape-blind) {sh_model[k]} real {res}")
+    sv_cases = [c for c in sh_cases if c[3] != c[4]] + [("sub", a, b, (), (3,)) for a in NUM for b in NUM if rng.random() < ck.pick(0.15, 1.0)] \
+        + [("floordiv", a, b, (3,), ()) for a in NUM for b in NUM if rng.random() < ck.pick(0.15, 1.0)]
+    for c, res in zip(sv_cases, forked_batch(lambda c_: shape_value_case(env, *c_), sv_cases)):
+        ck.count(("value-shape",) + c)
+        case = {"check": "shape", "op": c[0], "da": c[1], "db": c[2], "sa": list(c[3]), "sb": list(c[4])}
+        if res[0] != "ok":
+            if res[0] == "exc" and res[1].split(":")[0] in ("AttributeError", "ImportError", "ModuleNotFoundError", "NameError"):
+                ck.broken("correspondence", "C17 shape oracle could not observe spox", res[1])
+            else:
+                ck.failure(f"{c[0]}:runtime-crash" if res[0] == "crash" else f"{c[0]}:oracle-exception", f"{case}: {res[1]}", case)
+            continue
+        for key, what in res[1]:
+            ck.failure(key, what, case)
+    ck.cov["shape_cases"] = {"dispatch": len(sh_cases), "values": len(sv_cases), "dispatch_mismatches": sh_mism}
 
     # ------------------------------------------------------------------ expression histories (hidden state)
     n_hist_v, n_hist_c = ck.pick(150, 1500), ck.pick(250, 2500)
